@@ -183,7 +183,21 @@ func makeValue(t reflect.Type, r *sm64, o ValueOpts, depth int) reflect.Value {
 		m := reflect.MakeMapWithSize(t, n)
 		for i := 0; i < n; i++ {
 			k := reflect.New(t.Key()).Elem()
-			k.SetString(fmt.Sprintf("k%d_%x", i, r.next()&0xff))
+			if t.Key().Kind() == reflect.String {
+				k.SetString(fmt.Sprintf("k%d_%x", i, r.next()&0xff))
+			} else {
+				k.Set(makeValue(t.Key(), r, o, depth+1))
+				// keys that hold pointers are distinct by identity; make them
+				// distinct by CONTENT too, so that comparers can pair them up
+				uniq := int64(i+1) + 10*int64(r.next()%1000)
+				switch t.Key() {
+				case reflect.TypeOf(PKey{}):
+					k.FieldByName("N").SetInt(uniq)
+				case reflect.TypeOf([1]*int{}):
+					x := int(uniq)
+					k.Index(0).Set(reflect.ValueOf(&x))
+				}
+			}
 			m.SetMapIndex(k, makeValue(t.Elem(), r, o, depth+1))
 		}
 		v.Set(m)
